@@ -488,7 +488,17 @@ def checkInj (c : Ctx) (r : Report) (d : DSt) (p : Nat) (outer : Op) (inner : Li
         | none => 0
       let s := (secsCands sp outer []).headD 0
       let seq := placed outer ob innerObs pos s
-      let why := (specExplains c.cfg c.keys sp seq dumpS).getD "results not explained"
+      let why0 := (specExplains c.cfg c.keys sp seq dumpS).getD "results not explained"
+      -- when every result is explained and only the lock differs, name the clause of the property by the call
+      let clause : String :=
+        match (specSeq c.cfg sp seq).1, outer, ob with
+        | none, .release _, some false => "a Release that reported false changed the lock (late or foreign release must be harmless) — or an operation that ran during it did: "
+        | none, .release _, some true => "Release by the holder did not free exactly its key — or an operation that ran during it changed the lock: "
+        | none, .acquire _, some true => "lease after a successful Acquire is not seconds*1000+500 ms for this holder — or an operation that ran during it changed the lock: "
+        | none, .acquire _, some false => "a refused Acquire changed the lock — or an operation that ran during it did: "
+        | none, _, none => "a call that failed with an error changed the lock — or an operation that ran during it did: "
+        | _, _, _ => ""
+      let why := clause ++ why0
       r := r.violation c.sec c.line s!"{why} — no atomic placement of the call among the operations that ran during it explains the results (call sent [{cmdsS}], operations ran before its command {atS}) op=[{c.opTxt}] impl=[{c.impl}]"
       r := r.addCover "inj-not-linearizable"
       let (r', sp', bel', won') := beliefSeq c r sp bel won pos seq true
@@ -573,6 +583,13 @@ def checkReply (c : Ctx) (r : Report) (d : DSt) (kind : String) (h : Handed) (ou
     let cls := if kind.startsWith "s:" then (if kind = "s:OK" then "string-OK" else "string-other")
       else if kind.startsWith "i:" then (if kind = "i:1" then "int-1" else "int-other") else kind
     r := r.addCover s!"reply-{callName outer}-{cls}"
+    if cmds.contains "nosubst" then
+      -- the call's first executed command is not a script run: nothing could be substituted; the results are
+      -- checked as those of a plain call
+      r := r.mismatch c.sec c.line s!"<res> cmds={cmdsText cached} <store>" c.impl
+      r := r.addCover "reply-call-is-not-a-script-run"
+      let (r', d') := checkOps c r d [(outer, ob)] dump (fun m => s!"{resTok outer (m.headD true)} cmds={cmdsText cached}")
+      return (r', d')
     let want := handedOf outer h
     let head :=
       if d.down then "err cmds=evalsha!"
